@@ -113,6 +113,26 @@ MUTANTS = {
     return instance;''')],
  # a year present in two columns of the leap table: the answer depends on hash iteration order
  'm11_leap_year_in_two_columns': [(L, '      map.insert(i + 1, l);\n    }\n    map', '      map.insert(i + 1, l);\n    }\n    map.get_mut(&7).unwrap().push(3358);\n    map')],
+ # an unsynchronised one-entry fast path in front of the lock (engine A cannot see it: no seam event; Miri reports the data race)
+ 'm12_static_mut_last_month': [(L, '''  pub fn from_ym(year: isize, month: isize) -> Self {
+    let instance: Self;''', '''  pub fn from_ym(year: isize, month: isize) -> Self {
+    static mut LAST_MONTH: (isize, isize, [f64; 5]) = (isize::MIN, 0, [0.0; 5]);
+    #[allow(static_mut_refs)]
+    unsafe {
+      if LAST_MONTH.0 == year && LAST_MONTH.1 == month {
+        return Self::from_cache(LAST_MONTH.2.to_vec());
+      }
+    }
+    let instance: Self = Self::from_ym_locked(year, month);
+    #[allow(static_mut_refs)]
+    unsafe {
+      LAST_MONTH = (year, month, [instance.get_year() as f64, instance.get_month_with_leap() as f64, instance.get_day_count() as f64, instance.get_index_in_year() as f64, instance.get_first_julian_day().get_day()]);
+    }
+    instance
+  }
+
+  fn from_ym_locked(year: isize, month: isize) -> Self {
+    let instance: Self;''')],
  # a refused year leaves a marker that refuses the next valid year query
  'm13_refused_year_sticky': [(L, '''  pub fn from_ym(year: isize, month: isize) -> Self {
     let instance: Self;''', '''  pub fn from_ym(year: isize, month: isize) -> Self {
